@@ -191,7 +191,7 @@ func ruleServeCancellable(c *Ctx, rule string) {
 	p := c.p
 	e := p.Origins()
 	serve := p.MustFn("goat.handler.serve")
-	rd, _ := p.readResult(serve)
+	rd, _ := p.readResult(p.serverReadLoopFn())
 	an := p.ancestryOfValue(rd.Call.Args[0])
 	hctx := ctxAncestryOf(func() TermSet {
 		ts := TermSet{}
@@ -282,7 +282,7 @@ func (p *Prog) isHandlerCtx(v ssa.Value) bool {
 
 func ruleServeReturns(c *Ctx, rule string) {
 	p := c.p
-	serve := p.MustFn("goat.handler.serve")
+	serve := p.serverReadLoopFn()
 	rd, _ := p.readResult(serve)
 	errV := extractOf(rd, 1)
 	okRet := false
@@ -292,7 +292,11 @@ func ruleServeReturns(c *Ctx, rule string) {
 		}
 	}
 	c.check(rule, "serve:returns-on-read-error", okRet, "serve returns on the path where Read failed", p.ipos(rd))
-	n := ruleEscapable(c, rule, []*ssa.Function{serve}, nil, func(op *BlockOp, ctx ssa.Value) (bool, string) {
+	fns := []*ssa.Function{serve}
+	if outer := p.MustFn("goat.handler.serve"); outer != serve {
+		fns = append(fns, outer)
+	}
+	n := ruleEscapable(c, rule, fns, nil, func(op *BlockOp, ctx ssa.Value) (bool, string) {
 		return p.isHandlerCtx(ctx), "escape context " + p.lpath(ctx) + " must be the connection context h.ctx"
 	})
 	c.floor(rule, "blocking primitives in serve's loop", n, 2)
